@@ -333,3 +333,5 @@ def run(ctx):
     _b.check_predicates(ctx, 'C18.RP', 'C18')
     from .. import boundaries as _b
     _b.check_updates(ctx, 'C18.RU', 'C18')
+    from .. import boundaries as _b
+    _b.check_counts(ctx, 'C18.RQ', 'C18')
